@@ -1635,6 +1635,12 @@ func generalizeErr(err error) error {
 		}
 	}
 
-	// if it is not a well known error, return it
+	// Not a well known error. Errors produced by the network stack (*net.OpError) carry the local
+	// and remote address of the connection in their text. Return only the underlying cause so that
+	// client addresses never reach the logs or tunnel stats through an error we did not anticipate.
+	var opErr *net.OpError
+	for errors.As(err, &opErr) && opErr.Err != nil {
+		err = opErr.Err
+	}
 	return err
 }
